@@ -61,6 +61,16 @@ class DBadCtor(PoolDecorator, _Base):
         raise TypeError("DBadCtor rejects its arguments")
 
 
+class ServiceAbort(BaseException):
+    """a failure that is no Exception subclass"""
+
+
+def _failure(self):
+    # (an even fail_after makes it a BaseException that is no Exception)
+    cls = RuntimeError if self.fail_after % 2 else ServiceAbort
+    return cls("service %s fails" % self.name)
+
+
 async def _beat_trio(self):
     log("run", self.name)
     n = 0
@@ -70,7 +80,7 @@ async def _beat_trio(self):
             log("beat", self.name, n)
             if self.fail_after and n >= self.fail_after:
                 log("failing", self.name)
-                raise RuntimeError("service %s fails" % self.name)
+                raise _failure(self)
             await trio.sleep(0.02)
     except trio.Cancelled:
         log("cancelled", self.name)
@@ -86,7 +96,7 @@ async def _beat_asyncio(self):
             log("beat", self.name, n)
             if self.fail_after and n >= self.fail_after:
                 log("failing", self.name)
-                raise RuntimeError("service %s fails" % self.name)
+                raise _failure(self)
             await asyncio.sleep(0.02)
     except asyncio.CancelledError:
         log("cancelled", self.name)
@@ -101,7 +111,7 @@ def _beat_thread(self):
         log("beat", self.name, n)
         if self.fail_after and n >= self.fail_after:
             log("failing", self.name)
-            raise RuntimeError("service %s fails" % self.name)
+            raise _failure(self)
         time.sleep(0.02)
 
 
